@@ -96,7 +96,7 @@ class Gen:
             "max_depth": 2, "scalar_sub": True, "corr": True, "nulls_first": True,
             "limit": True, "dom": 3, "values": False, "grouping_sets": False, "mixed_width_keys": False, "outer_chains": False, "nonnull_col_p": 0.3,
             "group_keys_nonnull": False, "distinct_nonnull": False,
-            "setop_p": 0.15, "order_p": 0.6, "cte_p": 0.15,
+            "setop_p": 0.15, "order_p": 0.6, "cte_p": 0.15, "group_p": 0.35, "const_atoms": True, "notin_sub": True,
         }
         if opts:
             self.o.update(opts)
@@ -231,6 +231,18 @@ class Gen:
             return E(f"({q.sql})", {"k": "scalar", "q": q.m}, "int")
 
     def atom(self, scope, depth):
+        if self.o["const_atoms"]:
+            return self._atom(scope, depth)
+        for _ in range(6):
+            e = self._atom(scope, depth)
+            if has_col(e.m):
+                return e
+        a = self.pick_col(scope, None, allow_outer=False)
+        if a is None:
+            return self._atom(scope, depth)
+        return E(f"({a.sql} IS NOT NULL)", {"k": "isnull", "a": a.m, "neg": 1}, "bool")
+
+    def _atom(self, scope, depth):
         r = self.rng
         kinds = ["cmp", "cmp", "cmp", "isnull"]
         if self.o["inlist"]:
@@ -298,7 +310,7 @@ class Gen:
             q = self.subquery(scope, ncols=1, coltype="int")
             if q is None:
                 return self._nolike_atom(scope, 0)
-            neg = 1 if r.random() < 0.4 else 0
+            neg = 1 if (r.random() < 0.4 and self.o["notin_sub"]) else 0
             return E(f"({a.sql} {'NOT ' if neg else ''}IN ({q.sql}))", {"k": "insub", "a": a.m, "q": q.m, "neg": neg}, "bool")
 
     def _nolike_atom(self, scope, depth):
@@ -318,6 +330,15 @@ class Gen:
             a = self.pred(scope, depth - 1)
             return E(f"(NOT {a.sql})", {"k": "not", "a": a.m}, "bool")
         a, b = self.pred(scope, depth - 1), self.pred(scope, depth - 1)
+        if k == "or" and not self.o["const_atoms"]:
+            # the engine factors common conjuncts out of ORs; keep the restricted grammar away from
+            # `X OR (X AND Y)` shapes, whose NULL behaviour then differs from the uniform StrictBool deviation
+            for _ in range(5):
+                if not (conjuncts(a.m) & conjuncts(b.m)):
+                    break
+                b = self.pred(scope, depth - 1)
+            if conjuncts(a.m) & conjuncts(b.m):
+                return a
         return E(f"({a.sql} {k.upper()} {b.sql})", {"k": k, "a": a.m, "b": b.m}, "bool")
 
     # --------------------------------------------------------------- FROM ----
@@ -433,7 +454,7 @@ class Gen:
         where = None
         if r.random() < 0.7:
             where = self.pred(scope, 0 if simple and r.random() < 0.5 else min(o["max_depth"], 2))
-        grouped = scalar_agg or (o["group"] and not simple and coltype is None and r.random() < 0.35)
+        grouped = scalar_agg or (o["group"] and not simple and coltype is None and r.random() < o["group_p"])
         group_m = {"on": 0}
         gsql = ""
         hsql = ""
@@ -441,7 +462,7 @@ class Gen:
             nk = 0 if scalar_agg else r.choice([0, 1, 1, 1, 2])
             keys = []
             for _ in range(nk):
-                e = self.pick_col(scope, ("int", "i32", "dbl", "str", "date"), allow_outer=False)
+                e = self.pick_col(scope, ("int", "i32", "dbl", "str", "date"), allow_outer=False, nonnull=o["group_keys_nonnull"])
                 if e is not None and all(e.sql != k.sql for k in keys):
                     keys.append(e)
             naggs = 1 if scalar_agg else r.randint(1, 3)
@@ -604,6 +625,31 @@ class Gen:
         else:
             q = self.query(self.tables, None, self.o["max_depth"], top=True)
         return make_case(cid, self.tables, q)
+
+
+def conjuncts(m):
+    """set of (canonical json of) AND-conjuncts, looking through ORs as the engine's factoring does"""
+    import json as _j
+    out = set()
+
+    def walk(x):
+        if isinstance(x, dict) and x.get("k") in ("and", "or"):
+            walk(x["a"]); walk(x["b"])
+        else:
+            out.add(_j.dumps(x, sort_keys=True))
+    walk(m)
+    return out
+
+
+def has_col(m):
+    """does the model expression reference a column (of any scope) or a subquery?"""
+    if isinstance(m, dict):
+        if m.get("k") in ("col", "exists", "insub", "scalar"):
+            return True
+        return any(has_col(v) for v in m.values())
+    if isinstance(m, list):
+        return any(has_col(v) for v in m)
+    return False
 
 
 class Q:
